@@ -184,6 +184,16 @@ class ExprMixin(EngineCore):
             a, b = vals
             a = self.need(s, ctx, a, e.lineno, "binop-left")
             b = self.need(s, ctx, b, e.lineno, "binop-right")
+            lb = ops.lift(b)
+            if isinstance(e.op, (ast.FloorDiv, ast.Mod, ast.Div)) and not ctx.spec and is_z3(lb) and (smt.is_int(lb) or smt.is_real(lb)) \
+                    and not isinstance(ops.lift(a), (str, OpaqueStr)):
+                # division by zero raises before anything is computed
+                for s2, zero in self.fork(s, lb == 0):
+                    if zero:
+                        out.append((s2, self.raise_py(s2, ZeroDivisionError, "division by zero")))
+                    else:
+                        out.append((s2, self.binop_ext(s2, e.op, a, b, e)))
+                continue
             out.append((s, self.binop_ext(s, e.op, a, b, e)))
         return out
 
